@@ -415,7 +415,9 @@ def _judge(r, pname, sname, cfg, k_ps=None, reuse=None):
         npts = wm["npoints"]
         br.append("mesh>100" if npts > 100 else "mesh<=100")
         if npts > 100 and mode > 0:
-            br.append("mesh>100-modeP" + ("-Fq1d" if (pinfo.have_Fq and dim == "1d") else ""))
+            br.append("mesh>100-modeP")
+            if pinfo.have_Fq and dim == "1d":
+                br.append("mesh>100-modeP-Fq1d")
     else:
         F1, F2, reff_p, vshell, vratio = call_Fq(k_p, fq_pars)
     F2 = np.array(F2, float)
